@@ -388,29 +388,68 @@ Inductive incoming :=
 Definition incoming_cfg (i : incoming) : option ApiConfig :=
   match i with InCfg c => Some c | _ => None end.
 
-(* the balancer's configuration-related state: gb.cfg (None = nil) *)
-Definition bstate := option ApiConfig.
+(* the balancer's configuration-related state: gb.cfg (None = nil) and the
+   number of connections in the pool, len(gb.scRefs) *)
+Record bstate := mkB { b_cfg : option ApiConfig; b_pool : Z }.
+Definition init_state : bstate := mkB None 0.
 
 (* what the fake ClientConn sees during one update *)
 Record upd_out := mkOut {
   uo_err : bool;         (* UpdateClientConnState returned an error *)
-  uo_newsub : Z;         (* NewSubConn calls *)
+  uo_attempts : Z;       (* NewSubConn calls *)
+  uo_created : Z;        (* NewSubConn calls that returned a SubConn *)
   uo_updaddr : Z         (* SubConn.UpdateAddresses calls *)
 }.
 
-Definition update (s : bstate) (i : incoming) : bstate * upd_out :=
-  match s with
-  | Some c => (Some c, mkOut false 0 (min_size (pool_of c)))
-  | None =>
-      match i with
-      | InForeign => (None, mkOut true 0 0)
-      | _ => let e := effective (incoming_cfg i) in
-             (Some e, mkOut false (min_size (pool_of e)) (min_size (pool_of e)))
-      end
+(* enforceMinSize: add connections up to min; give up at the first refusal.
+   Returns (NewSubConn calls, pool size afterwards). *)
+Definition enforce_min (pool min : Z) (refuse : bool) : Z * Z :=
+  if pool <? min then (if refuse then (1, pool) else (min - pool, min)) else (0, pool).
+
+(* One UpdateClientConnState.  [refuse]: the ClientConn refuses to create
+   SubConns during this call (factory failure, or an empty address list).
+   - gb.cfg == nil: a foreign config type is an error and nothing happens;
+     otherwise initializeConfig (effective config, method table, enforceMinSize);
+   - gb.cfg != nil: the config argument is not looked at, whatever happened to
+     the pool in the meantime;
+   - then an empty pool gets one connection, a non-empty one gets the new
+     addresses pushed to every connection. *)
+Definition update (s : bstate) (i : incoming) (refuse : bool) : bstate * upd_out :=
+  let inited :=
+    match b_cfg s with
+    | Some c => Some (c, (0, b_pool s))
+    | None =>
+        match i with
+        | InForeign => None
+        | _ => let e := effective (incoming_cfg i) in
+               Some (e, enforce_min (b_pool s) (min_size (pool_of e)) refuse)
+        end
+    end in
+  match inited with
+  | None => (s, mkOut true 0 0 0)
+  | Some (c, (a, p)) =>
+      if p =? 0 then
+        (if refuse then (mkB (Some c) 0, mkOut false (a + 1) (0 - b_pool s) 0)
+         else (mkB (Some c) 1, mkOut false (a + 1) (1 - b_pool s) 0))
+      else (mkB (Some c) p, mkOut false a (p - b_pool s) p)
   end.
 
-Definition run_updates (s : bstate) (l : list incoming) : bstate :=
-  fold_left (fun s i => fst (update s i)) l s.
+(* n connections of the pool report connectivity.Shutdown *)
+Definition shutdown (s : bstate) (n : Z) : bstate :=
+  mkB (b_cfg s) (Z.max 0 (b_pool s - Z.max 0 n)).
+
+(* everything that can happen to the balancer as far as its configuration goes *)
+Inductive env_step :=
+| SUpdate (i : incoming) (refuse : bool)
+| SShutdown (n : Z).
+
+Definition step (s : bstate) (e : env_step) : bstate :=
+  match e with
+  | SUpdate i refuse => fst (update s i refuse)
+  | SShutdown n => shutdown s n
+  end.
+
+Definition run_steps (s : bstate) (l : list env_step) : bstate := fold_left step l s.
 
 (* --------------------------------------------- GCPMultiEndpoint.GCPConfig *)
 (* NewGCPMultiEndpoint stores proto.Clone(meOpts.GRPCgcpConfig); GCPConfig()
